@@ -83,6 +83,26 @@ unsafe impl GlobalAlloc for CountingAlloc {
         }
         p
     }
+    unsafe fn alloc_zeroed(&self, l: Layout) -> *mut u8 {
+        // forwarded (not alloc + memset): a multi-GiB zeroed vector stays untouched zero pages
+        if ODD && l.align() == 1 {
+            let p = self.alloc(l);
+            if !p.is_null() {
+                std::ptr::write_bytes(p, 0, l.size());
+            }
+            return p;
+        }
+        if refuse_now() {
+            return std::ptr::null_mut();
+        }
+        let p = System.alloc_zeroed(l);
+        if !p.is_null() && TRACK.load(Ordering::Relaxed) {
+            LIVE_BLOCKS.fetch_add(1, Ordering::Relaxed);
+            LIVE_BYTES.fetch_add(l.size() as i64, Ordering::Relaxed);
+            TOTAL_ALLOCS.fetch_add(1, Ordering::Relaxed);
+        }
+        p
+    }
     unsafe fn dealloc(&self, p: *mut u8, l: Layout) {
         if let Some(big) = odd(&l) {
             if TRACK.load(Ordering::Relaxed) {
